@@ -1431,6 +1431,7 @@ def paste_chunks(text):
 F19_WITNESS = ("vi", [b"a" * 66000], ["Esc", "R", "Esc", ".", "Enter"])
 F20_WITNESS = ("emacs", [b"x\n" + b"a" * 66000], ["Up", "Enter"])
 F23_WITNESS = ("vi", [b"a" * 65537 + b"\n"], ["Esc", "k", "j", "Enter"])
+F24_WITNESS = ("emacs", [b"\n" * 66000], ["Up", "Enter"])
 
 
 def c17_long_cases(tier, seed):
@@ -1450,6 +1451,7 @@ def c17_long_cases(tier, seed):
     cases.append(mk(*F19_WITNESS))
     cases.append(mk(*F20_WITNESS))
     cases.append(mk(*F23_WITNESS))
+    cases.append(mk(*F24_WITNESS))
     VI = [["Esc", "R", "Esc", "."], ["Esc", "s", "Esc", "."], ["Esc", "0", "R", "x", "Esc", "."], ["Esc", "A", "Esc", "."],
           ["Esc", "0", "d", "$", "u", "."], ["Esc", "0", "y", "$", "p", "."], ["Esc", "k", "j"], ["Esc", "x", "."],
           ["Esc", "0", "c", "w", "Esc", "."], ["Esc", "9", "9", "9", "9", "9", "l"], ["Esc", "0", "D", "P", "P"], ["Esc", "~", "."],
@@ -1460,7 +1462,7 @@ def c17_long_cases(tier, seed):
     for _ in range(n):
         mode = rng.choice(["vi", "emacs"])
         size = rng.choice([65534, 65535, 65536, 65537, 66000, 70000, 131072 + 5])
-        unit = rng.choice([b"a", b"a", b"ab ", b"\xc3\xa9", b"\xe6\x97\xa5", b"x y"])
+        unit = rng.choice([b"a", b"a", b"ab ", b"\xc3\xa9", b"\xe6\x97\xa5", b"x y", b"\n", b"a\n", b"\t"])
         text = (unit * (size // len(unit) + 1))[:size]
         while text and (text[-1] & 0xc0) == 0x80 or (text and text[-1] >= 0xc0):
             text = text[:-1]
